@@ -312,6 +312,7 @@ def work(item: Dict[str, Any]) -> Acc:
 
         def body_s(es):
             good = []
+            # an annotation (or alias value) may be written entirely as a string: the expression it holds is shown unquoted
             for e in es:
                 try:
                     if not check_text(e, 'inline') and not check_text(e, (0, 0)) and render(e, 'inline')[1]:
@@ -320,6 +321,11 @@ def work(item: Dict[str, Any]) -> Acc:
                     pass
             if not good:
                 return
+            # an annotation (or alias value) may be written entirely as a string: the expression it holds is shown unquoted
+            for e in list(good[:2]):
+                top = ast.parse(e, mode='eval').body
+                if '\\' not in e and not isinstance(top, (ast.Starred, ast.JoinedStr, ast.Constant)) and not any(isinstance(x, (ast.JoinedStr, ast.Yield, ast.YieldFrom, ast.Await, ast.NamedExpr)) for x in ast.walk(top)):
+                    good.append(repr(e))
             d, n = check_sites(good)
             acc.case(key=good, nontrivial=True, sample=({'expressions': good, 'sites': SITES} if acc.evals % 50 == 0 else None), classes=['in-situ'])
             acc.notes['site_renderings_compared'] = acc.notes.get('site_renderings_compared', 0) + n
